@@ -22,11 +22,13 @@ def fPosInf : Float := 1.0 / 0.0
 
 def isIntF (x : Float) : Bool := x.isFinite && x.floor == x
 
-/-- `y_max - y_min` in the dtype numpy computes it in: both are float32 observations only when the sample
-is float32 and nothing is censored (the limits are float64) -/
-def rangeF (f32 : Bool) (c : Censored Float) (st : Stats Float) : Float :=
-  if f32 && c.nLower == 0 && c.nUpper == 0 then (st.yMax.toFloat32 - st.yMin.toFloat32).toFloat
-  else st.yMax - st.yMin
+/-- `y_max - y_min` in the dtype numpy computes it in.  Since the repair `b86de3b` (`y_min`, `y_max` are
+`np.float64` before anything reads them) that is float64 for every sample dtype; before it, for an
+uncensored float32 sample, both were float32 scalars and the difference (and the validation of the
+constraints against them) was computed in float32.  The `f32` flag stays in the protocol (the decimals of
+the bucket rounding still depend on the sample's dtype, on the harness side). -/
+def rangeF (_f32 : Bool) (_c : Censored Float) (st : Stats Float) : Float :=
+  st.yMax - st.yMin
 
 def parseBool? : String → Option Bool
   | "0" => some false
